@@ -141,7 +141,8 @@ package message
 
 //@ func (*handler).handleMessage
 //@   requires h != nil && msg != nil && handler != nil
-//@   ghost consumes-wg h.runningHandlersWg
+//@   ghost consumes-wg h.runningHandlersWg as msg
+//@   gives @wgdone:h.runningHandlersWg: msg.ackSentType != noAckSent [an-invocation-reports-back-only-after-its-message-was-settled]
 //@   callee H = handler
 //@   callee P = h.publisher.Publish
 //@   nopanic
@@ -532,10 +533,12 @@ package message
 //@ func (*Router).waitForHandlers$1
 //@   ghost consumes-wg waitGroup
 //@   ghost borrows r.handlersLock
+//@   ghost joins-all r.runningHandlersWg: (*handler).handleMessage
 //@   requires r != nil && r.handlersWg != nil && r.runningHandlersWg != nil && r.runningHandlersWgLock != nil
 //@   nopanic
 //@   assert @wgwait:r.runningHandlersWg: wg(r.handlersWg) == 0 [the-wait-for-invocations-starts-only-after-every-receive-loop-has-ended]
 //@   assert @wgdone:waitGroup: wg(r.handlersWg) == 0 && wg(r.runningHandlersWg) == 0 [reports-back-only-with-no-receive-loop-alive-and-no-invocation-in-progress]
+//@   assert @wgdone:waitGroup: forall m *Message :: mark(wgpending, wgref(r.runningHandlersWg), m) ==> m.ackSentType != noAckSent [reports-back-only-when-every-message-that-was-ever-dispatched-to-a-handler-has-been-settled]
 //@   ensures wgtoken(waitGroup) == 0 [reports-back-exactly-once]
 
 //@ func (*handler).handleClose
